@@ -166,7 +166,7 @@ class Matrix:
             assert nrows == ncols
             I = J
         else:
-            assert rconstrain.shape == (nrows,) and constrain.dtype == bool
+            assert rconstrain.shape == (nrows,) and rconstrain.dtype == bool
             I = ~rconstrain
         try:
             lhs[J] += self.submatrix(I, J)._solver((rhs - self @ lhs)[I], solver, atol=atol, rtol=rtol, **solverargs)
